@@ -1,8 +1,16 @@
 //! Implement a lock-free pair of base_time_ms and corresponding voucher
 //! with two copies and a sequence number.
+#[cfg(not(feature = "pkhuong_woodpile_verif"))]
 use std::sync::atomic::AtomicU64;
+#[cfg(not(feature = "pkhuong_woodpile_verif"))]
 use std::sync::atomic::Ordering;
+#[cfg(not(feature = "pkhuong_woodpile_verif"))]
 use std::sync::Mutex;
+
+// With the verification hooks on, every atomic access and lock operation
+// goes through observable stand-ins with the same interface.
+#[cfg(feature = "pkhuong_woodpile_verif")]
+use crate::verif_sync::{AtomicU64, Mutex, Ordering};
 
 #[derive(Debug)]
 struct BaseTime {
